@@ -13,9 +13,12 @@ ASSUMPTIONS = [
     "Vec/Bytes/Arc<String>/String behave as immutable byte lists",
 ]
 
+HOOK_COMMITS = []
+
 PROPS = {
     "C15": {
         "lean": "Properties.C15",
+        "level_text": "Machine-checked Lean 4 theorems over the model for ALL n < 2^28 and all byte strings: writer length = reported size in 1..4, reader inverts writer and ignores the suffix, consumed-byte count, minimality, shape, total/header/remaining identities, rejection of >= 2^28 and of 5-byte forms, code thresholds = MQTT table. The four length helpers are lookups in tables regenerated from the running code on every run (Tie A); write_var_int/decode_raw_header/poll header machine are tied by an exhaustive comparison over all 2^28+9 values on the real functions.",
         "streams": ["vi", "vib"],
         "rule": "correspondence: vi = every value within ±66 of each width threshold and of 2^28 plus random values up to 2^30; vib = all continuation-bit patterns of 1..5 bytes x 3 payload choices x 3 control bytes plus random short strings; a case is distinct if its op line is distinct. oracle: exhaustive over all 2^28+9 values on the real functions.",
         "explanation": "theorems over the model for all n < 2^28 and all byte strings; length helpers are lookups in tables regenerated from the running code; writer/reader model tied by exhaustive comparison on the implementation",
@@ -23,10 +26,19 @@ PROPS = {
     },
     "C19": {
         "lean": "Properties.C19",
+        "level_text": "Machine-checked Lean 4 theorems for ALL (p,u): add/sub never panic, never give 0, equal u steps round the 1..65535 cycle of Spec.Pid, are mutually inverse, in-place = pure, try_from fails exactly for 0. The model is tied to the real operators exhaustively (all 65535 x 65536 pairs against the closed form the theorems prove equal to the model) and by the op-line correspondence in release and debug builds.",
         "streams": ["pid"],
         "rule": "correspondence: 11x11 edge pairs plus random (p,u); oracle: all 65535 x 65536 pairs and all 65536 raw values on the real operators against the closed form the theorems prove equal to the model and to the cycle",
         "explanation": "theorems for all (p,u); implementation = closed form checked exhaustively",
         "debug_streams": ["pid"],
         "oracle_debug": False,
+    },
+    "C18": {
+        "lean": "Properties.C18",
+        "level_text": "Machine-checked Lean 4 theorems for ALL texts (lists of Unicode scalar values): the model of TopicName::is_invalid accepts exactly texts of at most 65,535 UTF-8 bytes free of '+', '#', U+0000 (= Spec.validName), the compared length is the encoded byte length, text<->bytes is a bijection on valid UTF-8 (core Lean's verified decoder), is_shared/is_sys are exactly the $share/ and $SYS/ prefixes. Tied to the code by bounded-exhaustive correspondence (all strings up to length 5/6 over the distinguishing alphabet, 65,534..65,536-byte strings) and by the oracle, which also drives the PUBLISH / will / response-topic decode paths of both families with each string.",
+        "streams": ["tn", "utf8"],
+        "rule": "tn: all strings of length <= 5 (thorough 6) over {/ + # $ a NUL é 你 😀}, $share/$SYS prefix shapes, 65534/65535/65536-byte strings, random, invalid UTF-8; utf8: all 1- and 2-byte strings, 3-/4-byte boundaries, random (simdutf8 and std agree with the model's validity). distinct = distinct op lines / distinct strings.",
+        "explanation": "theorem for all texts; packet paths call the same function in the model, tied by the oracle on the real decoders",
+        "assumptions": ["simdutf8::basic::from_utf8 and str::chars() are modelled by core Lean's verified UTF-8 decoder (compared on every utf8 op)"],
     },
 }
